@@ -90,7 +90,10 @@ def gen_len(rng, k, maxlen, alg):
         q = rng.choice([0, 0, 1, 2, 31, 62, 63]) if rng.below(2) else rng.below(64)
         blocks = rng.choice([0, 0, 1, 1, 2, 3]) if maxlen >= 4096 else rng.below(2)
         return min(maxlen, blocks * 1024 + q * 16 + r16)
-    m = rng.below(10)
+    m = rng.below(11)
+    if m == 10:
+        # the residues where the tail needs a second padding block (total mod 1024 in 1016..1023), and the last one-block ones
+        return min(maxlen, rng.choice([0, 0, 1, 2, 3]) * 1024 + rng.choice([1007, 1008, 1014, 1015, 1016, 1017, 1018, 1019, 1020, 1021, 1022, 1023]))
     if m < 4:
         return min(maxlen, rng.choice(LEN_BOUNDARY))
     if m < 6:
@@ -133,8 +136,57 @@ def gen_cases(rng, n, alg, maxlen):
 
 
 def case_line(cid, fam, c):
-    return "U %s %s %s %x %s %s %d %s" % (cid, fam, c["alg"], c["seed"], c["stream"].hex() or "-", c["ctxp"],
-                                          len(c["lens"]), " ".join("%d:%s" % (l, p) for l, p in zip(c["lens"], c["places"])))
+    tail = "%s %s %d %s" % (c["stream"].hex() or "-", c["ctxp"], len(c["lens"]),
+                            " ".join("%d:%s" % (l, p) for l, p in zip(c["lens"], c["places"])))
+    if c.get("inject"):
+        j = c["inject"]
+        return "J %s %s %s %x %x %s %s %x %x %s" % (cid, fam, c["alg"], c["seed"], j["total0"], j["partial"] or "-", j["interim"],
+                                                     j["h1"], j["h2"], tail)
+    if c.get("big"):
+        b = c["big"]
+        return "B %s %s %s %x %x %d %d %s" % (cid, fam, c["alg"], c["seed"], b["patseed"], b["prefix_len"], b["chunk"], tail)
+    return "U %s %s %s %x %s" % (cid, fam, c["alg"], c["seed"], tail)
+
+
+def gen_inject_cases(rng, alg, n):
+    """state injection: total_length around 2^29, 2^30, 2^31 and just below 2^32 (where 32-bit length arithmetic would
+    wrap), arbitrary interim digests / partial bytes / murmur words, then a short suffix fed through update + finalize"""
+    cases = []
+    blocks0 = [(1 << 19) - 2, (1 << 19) - 1, 1 << 19, (1 << 19) + 1, (1 << 20) - 1, 1 << 20, (1 << 21) - 1, 1 << 21,
+               (1 << 21) + (1 << 19), (1 << 22) - 5, (1 << 22) - 4]
+    for k in range(n):
+        plen = rng.choice([0, 1, 15, 16, 17, 1007, 1008, 1015, 1016, 1017, 1023]) if rng.below(2) else rng.below(1024)
+        total0 = blocks0[k % len(blocks0)] * 1024 + plen
+        sl = rng.choice([0, 1, max(0, 1024 - plen - 1), 1024 - plen, 1024 - plen + 1, 2048 - plen, rng.below(2100)])
+        kind, lens = gen_segmentation(rng, sl, 4096)
+        lens = lens or [0]
+        sl = sum(lens)
+        if total0 + sl >= 1 << 32:
+            lens, sl = [0], 0
+        cases.append({"alg": alg, "seed": rng.next() if alg == "mur" else 0, "stream": rng.bytes(sl), "lens": lens,
+                      "places": [gen_place(rng) for _ in lens], "ctxp": "e", "aim": "inject:" + kind,
+                      "inject": {"total0": total0, "partial": rng.bytes(plen).hex(),
+                                 "interim": rng.bytes(4 * 16 * NW[alg]).hex(),
+                                 "h1": rng.next() if alg == "mur" else 0, "h2": rng.next() if alg == "mur" else 0}})
+    return cases
+
+
+def gen_big_cases(rng, alg, tier):
+    """real streams of 2^29 bytes and more (thorough: 2^31, 2^32 - small): the first prefix_len bytes are a periodic
+    pattern hashed natively only; the model continues from the context observed after the prefix"""
+    shapes = [((1 << 29) - 1024, (1 << 20) - 7, 1024 + 1 + rng.below(1000)),        # total = 2^29 + r
+              (1 << 29, 1 << 20, 0)]                                                   # total = 2^29 exactly
+    if tier == "thorough":
+        shapes += [((1 << 31) - 5, (1 << 22) + 3, 5 + 1016), ((1 << 31) + (1 << 29), 1 << 24, 17),
+                   ((1 << 32) - 4096, (1 << 24) - 1, 4095), ((1 << 32) - 2048 - 9, 1 << 23, 1033)]
+    cases = []
+    for prefix_len, chunk, sl in shapes:
+        a = rng.below(sl + 1)
+        kind, lens = ("single", [sl]) if rng.below(2) or sl == 0 else ("two", [a, sl - a])
+        cases.append({"alg": alg, "seed": rng.next() if alg == "mur" else 0, "stream": rng.bytes(sum(lens)), "lens": lens,
+                      "places": [gen_place(rng) for _ in lens], "ctxp": "e", "aim": "big:" + kind,
+                      "big": {"patseed": rng.next(), "prefix_len": prefix_len, "chunk": chunk}})
+    return cases
 
 # ----------------------------------------------------------------------------- output parsing / comparison
 
@@ -144,11 +196,14 @@ def parse_out(line, alg):
     t = line.split()[1:]
     nu = 5 if alg == "mur" else 3
     nf = 3 if alg == "mur" else 1
-    r = {"u": [], "f": None, "s": None, "g": None, "flags": []}
+    r = {"u": [], "k": None, "f": None, "s": None, "g": None, "flags": []}
     i = 0
     while i < len(t):
         if t[i] == "u" and i + nu < len(t) + 0 and len(t) >= i + 1 + nu:
             r["u"].append(tuple(t[i + 1:i + 1 + nu]))
+            i += 1 + nu
+        elif t[i] == "k" and len(t) >= i + 1 + nu:
+            r["k"] = tuple(t[i + 1:i + 1 + nu])
             i += 1 + nu
         elif t[i] in ("f", "s") and len(t) >= i + 1 + nf:
             r[t[i]] = tuple(t[i + 1:i + 1 + nf])
@@ -297,6 +352,28 @@ def run_cases(cases, impl_exe, model_exe, disp_every=3, fams=None):
     return mout, iout, ierr
 
 
+def run_big(cases, impl_exe, model_exe, fams):
+    """long real streams: native first (B lines, every family), then the model continued (J line) from the context the
+    `base` family shows after the prefix; returns (model out, impl out, {case index: families whose context after the
+    prefix differs from base's})"""
+    itxt = "\n".join(case_line("c%d.%s" % (k, f), f, c) for k, c in enumerate(cases) for f in fams)
+    iout, ierr = vlib.run_driver(impl_exe, itxt, shards=min(vlib.NCPU, max(1, len(cases) * len(fams))), timeout=3000)
+    mlines, kdiff = [], {}
+    for k, c in enumerate(cases):
+        ks = {f: parse_out(iout["c%d.%s" % (k, f)], c["alg"])["k"] for f in fams}
+        ref = ks.get("base") or next((v for v in ks.values() if v), None)
+        bad = [f for f in fams if ks[f] != ref]
+        if bad:
+            kdiff[k] = bad
+        if ref is None:
+            ref = ("0", "-", "0" * (8 * 16 * NW[c["alg"]]), "0", "0")
+        cj = dict(c, big=None, inject={"total0": int(ref[0], 16), "partial": "" if ref[1] == "-" else ref[1], "interim": ref[2],
+                                       "h1": int(ref[3], 16) if len(ref) > 3 else 0, "h2": int(ref[4], 16) if len(ref) > 4 else 0})
+        mlines.append(case_line("c%d" % k, "model", cj))
+    mout, _ = vlib.run_driver(model_exe, "\n".join(mlines), shards=min(vlib.NCPU, max(1, len(cases))))
+    return mout, iout, kdiff
+
+
 def minimise(c, fam, impl_exe, model_exe, budget=36):
     """greedy shrinking of a failing (observable) case: one update, fewer updates, shorter stream"""
     def fails(cc):
@@ -343,15 +420,26 @@ def minimise(c, fam, impl_exe, model_exe, budget=36):
 
 
 def replay_dict(c, fam, mline, iline, detail):
-    return {"alg": c["alg"], "family": fam, "seed": "%x" % c["seed"], "stream": c["stream"].hex(),
+    extra = {}
+    if c.get("big"):
+        extra = {"big": c["big"], "long_stream": "prefix_len bytes of the periodic pattern (period chunk; byte i = top byte of x_i, "
+                 "x_0 = patseed, x_{i+1} = x_i*6364136223846793005+1442695040888963407 mod 2^64) fed in chunk-byte updates, "
+                 "then `stream` cut as `lens`; oracle = model continued from the context observed after the prefix"}
+    if c.get("inject"):
+        extra = {"inject": c["inject"]}
+    return {**extra, "alg": c["alg"], "family": fam, "seed": "%x" % c["seed"], "stream": c["stream"].hex(),
             "lens": c["lens"], "places": c["places"], "ctxp": c["ctxp"], "detail": detail,
             "spec_and_model": mline[-400:], "impl": iline[-400:],
             "oracle": "L0 spec Spec/MH.v mh_sha1|mh_sha256 (+ Spec/Murmur3.v murmur3_x64_128) evaluated by the extracted OCaml"}
 
 
 def case_from_replay(r):
-    return {"alg": r["alg"], "seed": int(r["seed"], 16), "stream": bytes.fromhex(r["stream"]), "lens": r["lens"],
-            "places": r["places"], "ctxp": r.get("ctxp", "e"), "aim": "replay"}
+    c = {"alg": r["alg"], "seed": int(r["seed"], 16), "stream": bytes.fromhex(r["stream"]), "lens": r["lens"],
+         "places": r["places"], "ctxp": r.get("ctxp", "e"), "aim": "replay"}
+    for k in ("big", "inject"):
+        if r.get(k):
+            c[k] = r[k]
+    return c
 
 
 def hist_add(h, k):
@@ -388,9 +476,19 @@ def run_property(pid, algs, tier, replay, n_quick, n_thorough, rng_salt, extra_a
     dist = {"alg": {}, "segmentation": {}, "stream_len_class": {}, "len_mod_1024": {}, "len_mod_16": {}, "n_updates": {},
             "seed_class": {}, "placement": {}, "mh_blocks": {}}
 
-    def evaluate(cases, tag, disp_every, record):
-        mout, iout, ierr = run_cases(cases, impl_exe, model_exe, disp_every,
-                                     fams=[replay_fam] if replay_fam else None)
+    def evaluate(cases, tag, disp_every, record, big=False):
+        if big:
+            bfams = [replay_fam] if replay_fam else FAMS
+            mout, iout, kdiff = run_big(cases, impl_exe, model_exe, bfams)
+            ierr = ""
+            for k, bad in kdiff.items():
+                if state["wb"] is None:
+                    c = cases[k]
+                    state["wb"] = (bad[0], c, "context after the %d-byte prefix differs from the base family's in %s" % (c["big"]["prefix_len"], bad),
+                                   mout["c%d" % k], iout["c%d.%s" % (k, bad[0])])
+        else:
+            mout, iout, ierr = run_cases(cases, impl_exe, model_exe, disp_every,
+                                         fams=[replay_fam] if replay_fam else None)
         bound = {}
         for l in ierr.split("\n"):
             if " bound=" in l:
@@ -412,7 +510,7 @@ def run_property(pid, algs, tier, replay, n_quick, n_thorough, rng_salt, extra_a
             if record:
                 hist_add(dist["alg"], c["alg"])
                 hist_add(dist["segmentation"], c["aim"])
-                hist_add(dist["stream_len_class"], "0" if L == 0 else "<1024" if L < 1024 else "=1024" if L == 1024 else "<=4096" if L <= 4096 else ">4096")
+                hist_add(dist["stream_len_class"], ">=2^29 (long stream)" if c.get("big") else "injected total 2^29..2^32" if c.get("inject") else "0" if L == 0 else "<1024" if L < 1024 else "=1024" if L == 1024 else "<=4096" if L <= 4096 else ">4096")
                 hist_add(dist["len_mod_1024"], "0" if L % 1024 == 0 else "1..1006" if L % 1024 < 1007 else "1007..1015" if L % 1024 <= 1015 else "1016..1023")
                 hist_add(dist["len_mod_16"], L % 16)
                 nu = len(c["lens"])
@@ -424,15 +522,21 @@ def run_property(pid, algs, tier, replay, n_quick, n_thorough, rng_salt, extra_a
                     hist_add(dist["placement"], "end-flush" if p == "e" else "after-guard+offset")
                 if k < 3:
                     rep.sample({"case": case_line("c%d" % k, "*", c)[:300], "spec_and_model": m[-200:]})
-            for f in ([replay_fam] if replay_fam else fams_for(k, disp_every)):
+            for f in ([replay_fam] if replay_fam else (FAMS if big else fams_for(k, disp_every))):
                 i = iout["c%d.%s" % (k, f)]
-                rep.case((tag, c["alg"], c["seed"], c["stream"], tuple(c["lens"]), tuple(c["places"]), f), L > 0)
+                rep.case((tag, c["alg"], c["seed"], c["stream"], tuple(c["lens"]), tuple(c["places"]), f,
+                          json.dumps(c.get("inject") or c.get("big"), sort_keys=True)), L > 0 or big or bool(c.get("inject")))
                 kind, detail = compare(c, m, i)
+                if c.get("inject") and kind == "observable" and not parse_out(i, c["alg"])["flags"]:
+                    # an injected state need not be reachable from init: a difference is a broken model/code tie, not a failing input
+                    kind, detail = "whitebox", "state injection total_length=0x%x: %s" % (c["inject"]["total0"], detail)
+                if big and kind == "observable":
+                    detail = "long stream (prefix %d + %d bytes; expected value = model continued from the context after the prefix): %s" % (c["big"]["prefix_len"], L, detail)
                 if kind == "internal":
                     state["internal"] = state["internal"] or detail
                 elif kind == "observable":
                     sig = signature(c, f, m, i)
-                    if rep.match_known(sig) is not None or state["nviol"] >= 3:
+                    if rep.match_known(sig) is not None or state["nviol"] >= 3 or big or c.get("inject"):
                         cm, m2, i2 = c, m, i
                     else:
                         cm = minimise(c, f, impl_exe, model_exe)
@@ -446,7 +550,20 @@ def run_property(pid, algs, tier, replay, n_quick, n_thorough, rng_salt, extra_a
                     state["wb"] = (f, c, detail, m, i)
         return len(cases)
 
-    total = evaluate(cases, "main", 3, True)
+    if replay and cases[0].get("big"):
+        total = evaluate(cases, "replay-big", 0, True, big=True)
+    else:
+        total = evaluate(cases, "main", 3, True)
+    if not replay:
+        # 32-bit length arithmetic: injected contexts with total_length around 2^29 .. 2^32, and real streams >= 2^29 bytes
+        inj, bigs = [], []
+        for alg in algs:
+            inj += gen_inject_cases(rng, alg, {"quick": 33, "thorough": 660}[tier])
+            bigs += gen_big_cases(rng, alg, tier)
+        total += evaluate(inj, "inject", 3, True)
+        total += evaluate(bigs, "long-stream", 0, True, big=True)
+        rep.notes["state_injection_cases"] = len(inj)
+        rep.notes["long_stream_cases"] = [{"alg": c["alg"], "total": c["big"]["prefix_len"] + len(c["stream"])} for c in bigs]
     if (state["wb"] or not ok) and not rep.violations and not replay:
         # model/code tie or an obligation is broken but nothing observable yet: larger search
         # against the L0 oracle before reporting no-failing-input-found
@@ -471,6 +588,6 @@ def run_property(pid, algs, tier, replay, n_quick, n_thorough, rng_salt, extra_a
         "the block kernels (_mh_*_block_<family>, 16 interleaved SHA lanes; murmur stitched in) are modelled by one Gallina function (16 x the compression function of Spec/SHA1.v / SHA256.v on the dealt words; 64 x mur_body) and tied to it only on the generated cases",
         "sha1_for_mh_sha1 / sha256_for_mh_sha256 are modelled by md_hash of the interim-digest memory image",
         "inputs are copied next to an inaccessible page (end flush, or start right after one at a chosen offset 0..63); a fault or a modified input is reported as a violation",
-        "streams are <= 16 KiB in the correspondence run; total lengths near 2^32 are covered by the theorem only (the uint32 wrap of len + partial_len is in the model)",
+        "ordinary cases use streams <= 16 KiB; totals of 2^29 bytes and more are exercised by (a) real streams whose periodic prefix is hashed natively only, the model continuing from the context the base family shows after the prefix (all five families must show the same context), and (b) contexts written directly (state injection) with total_length around 2^29..2^32",
     ] + list(extra_assumptions)
     return rep
